@@ -61,10 +61,10 @@ CHECKS.update({
    "Version seen by the handler is HTTP/2 iff the stream starts with the full preface; the response equals what plain hyper http1 / http2 answers to the same bytes; bodies longer than the sniff buffer are verified byte for byte behind the detector.",
    "DESIGN.md 5 (C08), 4.B"),
  "C09": e2e("srvfault", "fault_enumeration",
-   "deterministic simulation with enumerated fault kind x stage (cancelled connect, connect-then-close, garbage, head/body truncated at offsets, client gone mid-response, handler error, TLS garbage / plaintext / ClientHello truncated or stalled at offsets) x {SimNet, hyperdriver duplex} x {plain, TLS} x {auto, http1}, plus seeded fault sequences interleaved with well-behaved clients",
+   "deterministic simulation with enumerated fault kind x stage (cancelled connect, connect-then-close, garbage, head/body truncated at offsets, client gone mid-response, handler error, TLS garbage / plaintext / ClientHello truncated or stalled at offsets) x {SimNet, hyperdriver duplex} x {plain, TLS} x {auto, http1}, plus seeded fault sequences interleaved with well-behaved clients; second part (realsock): the TCP and Unix acceptors over real loopback / Unix-domain sockets with the order of system calls decided by the harness ({close, reset} x bytes written first x {in the listen backlog, after accept}, garbage, Unix peers bound to ordinary / non-UTF-8 paths), enumerated plus seeded sequences",
    "After every fault sequence the serving future is still pending, and every well-behaved client on its own connection (bystanders during the faults, a probe afterwards) gets its complete correct response within 30 s of virtual time.",
    "DESIGN.md 5 (C09), 4.B",
-   E2E_NOTE + "; TCP and Unix acceptors need kernel sockets and are not run; handler panics out of scope"),
+   E2E_NOTE + "; the TCP and Unix acceptors run over real kernel sockets (no seam): only the system-call order is controlled there, accept errors such as EMFILE cannot be injected; handler panics out of scope"),
  "C12": e2e("tlsmode", "fault_enumeration",
    "deterministic simulation with enumerated scheme x host form x certificate x peer behaviour (incl. the genuine TLS server flight truncated at 40 offsets, closing or stalling) through TlsTransport and through the whole client stack; raw first bytes captured at the peer, SNI captured by a recording certificate resolver, certificate validity against a simulated wall clock",
    "https/wss: the peer's first bytes are a TLS handshake record, SNI = URI host (none for IP literals), success iff the certificate is valid for the URI host and the peer completes a genuine handshake; any failure is an Err with exactly one dial and no request reaching a handler; other schemes go out in clear; no host form panics.",
